@@ -59,6 +59,12 @@ func runRebanCase(r *ev.Run, id string, idx int) {
 		return
 	}
 	c.refused = append(c.refused, newcomer) // released at the end whatever happens
+	// a second newcomer of the host, for an attempt late in the ban (2.6 s of 3 s)
+	latecomer := c.newPeer(host, kinds[rng.Intn(2)])
+	if latecomer == nil {
+		return
+	}
+	c.refused = append(c.refused, latecomer)
 	var second *bookPeer
 	for _, p := range c.live {
 		if p.host == host {
@@ -86,5 +92,27 @@ func runRebanCase(r *ev.Run, id string, idx int) {
 	default:
 		r.Count("book_refused_after_second_ban", 1)
 		r.Case("book|re-ban-after-elapsed-ban", true)
+		// "no peer from a banned host is admitted before the ban duration has elapsed": the clock was read before the ban
+		// was pronounced, so a verdict that arrives less than 2.9 s after that reading was taken inside the 3 s ban
+		if rest := 2600*time.Millisecond - time.Since(t2); rest > 0 {
+			time.Sleep(rest)
+		}
+		late := c.book.Add(latecomer.vp)
+		dt2 := time.Since(t2)
+		c.logf("add %s %s %v after the ban -> admitted=%v", latecomer.kind, universe[host].ip, dt2, late)
+		switch {
+		case dt2 >= 2900*time.Millisecond:
+			r.Count("book_late_attempts_too_late_to_judge", 1)
+			if late {
+				latecomer.admitted = true
+				c.m.add(universe[host], latecomer.kind)
+			}
+		case late:
+			latecomer.admitted = true
+			c.m.add(universe[host], latecomer.kind)
+			c.violate("book|admission|model=refuse:banned|got=admit|before-the-ban-duration-has-elapsed", fmt.Sprintf("host %s was banned for %v; %v after the clock reading that preceded the ban a peer of that host was admitted", universe[host].ip, ban, dt2))
+		default:
+			r.Count("book_refused_late_in_the_ban", 1)
+		}
 	}
 }
